@@ -30,14 +30,17 @@ ASSUME = [
     "one name is allowed: the rules then designate any of them (set-valued FindSpec); the random driver creates such scopes "
     "with probability 1/10 per clash",
     "expressions are the raw NameString bytes the parser hands to Find: ['\\\\' | '^'*] followed by nothing, name segments joined, "
-    "0x2E seg seg, or 0x2F count seg*count.  Too-short names (a 1..3 byte stub after a well-formed start, the empty "
-    "expression, or a 0x2E / 0x2F [count] prefix followed by no name at all) must give not-found; any other malformed byte "
-    "string (a dual/multi prefix followed by fewer or more complete segments than announced, a prefix after a prefix, stray "
-    "bytes, NUL) merely has to return",
+    "0x2E seg seg, or 0x2F count seg*count; a prefix item (0x2E, or 0x2F and a count byte that is not a name character) may "
+    "also be embedded in front of any later segment and is stepped over (the designated node is that of the path without it).  "
+    "Too-short names (after a well-formed start: a prefix item followed by no name and/or a 1..3 byte stub, then the end; or the "
+    "empty expression) must give not-found; any other malformed byte string (a leading dual/multi prefix with another number of "
+    "complete segments than announced, an embedded 0x2F whose count byte is 'A'..'Z' or '_' (two readings), two prefix items in "
+    "a row, a prefix after a prefix, stray bytes, NUL) merely has to return",
     "a MultiNamePath with SegCount 1 and no prefix may be resolved either as a single segment (upward search) or downward only",
     "node names are valid NameSegs, all-zero (unnamed objects, possibly carrying the stale name of the slot's previous owner) "
     "or the root's '\\\\'; names with other bytes cannot be designated by a well-formed expression and are not generated",
-    "sizes: TLC scopes are the closed edit graph for <= 5 slots and all trees of <= 5 nodes (<= 4 with detached subtrees); the "
+    "sizes: TLC scopes are the closed edit graph for <= 5 slots, all trees of <= 5 named nodes and all forests of <= 4 nodes "
+    "with unnamed nodes and detached subtrees (quick: forests of <= 3 nodes in leg M, a sample of the <= 4 node forests in leg G); the "
     "random leg goes to 300 objects, scopes with ~100 children, chains ~270 deep, paths of 255 (SegCount) / 260+ (joined) "
     "segments, 260 '^'.  Pools near 2^32 objects are physically infeasible and not covered",
     "which freed slot is reused is the implementation's choice (the monitor checks membership); the LIFO free list is only "
@@ -353,15 +356,16 @@ def run(ctx):
     # ---- leg M (the runs are independent: start them together)
     edit_bugs = ["AfterNoPrevFix"] if q else ["AfterNoPrevFix", "AppendNoPrev", "DetachKeepsLast", "DetachNoPrevNext", "FreeNoDetach",
                                               "GrowWithFreeList", "FreeNonLeafProceeds"]
-    find_bugs = ["SingleNoUpward"] if q else ["CaretGrandparent", "SingleNoUpward", "MultiUpward", "SegCountAsName", "HdrNoLengthGuard"]
+    find_bugs = ["SingleNoUpward"] if q else ["CaretGrandparent", "SingleNoUpward", "MultiUpward", "SegCountAsName", "HdrNoLengthGuard",
+                                              "SkipOnlyBeforeFirstSeg"]
     jobs = [
         lambda: ctx.model_check(d, "MCObjTree", "MCObjTreeEdit" + tier, workers=1, env={"GRAPH": graph}, timeout=1500,
                                 coverage=not q, name="M-edit"),
         lambda: ctx.model_check(d, "MCObjTree", "MCObjTreeFind" + tier, workers=4 if q else 16, timeout=1500, name="M-find"),
         lambda: ctx.model_check(d, "MCObjTree", "MCObjTreeTrees" + tier, workers=1, env={"TREES": trees, "EXPRS": exprsf},
                                 timeout=600, name="emit-trees"),
-        lambda: ctx.model_check(d, "MCObjTree", "MCObjTreeFindDet" + tier, workers=4 if q else 16, timeout=1500, name="M-find-detached"),
     ] + ([] if q else [
+        lambda: ctx.model_check(d, "MCObjTree", "MCObjTreeFindDetFull", workers=16, timeout=1500, name="M-find-detached"),
         lambda: ctx.model_check(d, "MCObjTree", "MCObjTreeTreesDetFull", workers=1, env={"TREES": trees + ".det", "EXPRS": exprsf + ".det"},
                                 timeout=600, name="emit-trees-detached")]) + [(lambda b=b: ctx.expect_model_violation(d, "MCObjTree", "MCObjTreeBug_" + b, workers=2, timeout=600)) for b in edit_bugs + find_bugs]
     cap = vlib.maxpar() if hasattr(vlib, "maxpar") else vlib.NCPU
@@ -404,7 +408,7 @@ def run(ctx):
     if q:
         rnd = random.Random(ctx.seed)
         big = [t for t in alltrees if len(t["par"]) >= 3]
-        use = rnd.sample(big, min(8, len(big)))
+        use = rnd.sample(big, min(5, len(big)))
     ctx.cov["legs"]["G-find-cases"] = {"trees_enumerated": len(alltrees), "trees_replayed": len(use), "expressions": len(exprs)}
     with open(gs, "w") as f:
         for s in scripts:
